@@ -360,6 +360,11 @@ Definition on_write (m : mst) (origin : Z) (o : sop) (acked : bool) (s s' : stor
                    if acked then m else fset m 9 id 1
                | None => m
                end in
+      (* only the commander stores a command: any other writer doing so resurrects / invents one *)
+      let m := match cmd with
+               | Some _ => if zin origin [6; 9] then m else add_viol m 11 4 id
+               | None => m
+               end in
       (* command processing by the cmd watcher: the clearing write *)
       if Z.eqb origin 2 && must_cmd && match cmd with None => true | Some _ => false end then
         match find_ins s id with
